@@ -522,7 +522,11 @@ func (d Dec) Ceil() Dec {
 		return NewDecFromBigInt(quo)
 	}
 
-	return NewDecFromBigInt(quo.Add(quo, oneInt))
+	res := NewDecFromBigInt(quo.Add(quo, oneInt))
+	if res.Int.BitLen() > 255+DecimalPrecisionBits {
+		panic("Int overflow")
+	}
+	return res
 }
 
 //___________________________________________________________________________________
